@@ -1,4 +1,4 @@
 From Coq Require Import ExtrOcamlBasic NArith List.
-From LLRP Require Import Codec.Schema Codec.Encode Codec.Decode Codec.SchemaTable.
+From LLRP Require Import Codec.Schema Codec.Encode Codec.Decode Codec.SchemaTable Codec.Wf Codec.WfBool.
 Extraction Language OCaml.
-Extraction "model.ml" llrp_table enc encode fits decode N.of_nat N.to_nat.
+Extraction "model.ml" llrp_table enc encode fits wfvb decode N.of_nat N.to_nat.
